@@ -815,6 +815,171 @@ def replay(rec):
 
 
 # ------------------------------------------------------------------ run
+# --- register / memory payloads of GdbClient (client.py) against Model.RspRegs ------------------
+SRC_CLIENT = 'ppci/binutils/dbg/gdb/client.py'
+
+
+class _FakeReg:
+    def __init__(self, bitsize):
+        self.bitsize = bitsize
+
+
+def load_client():
+    import logging
+    import ppci.binutils.dbg.gdb.client as client
+    importlib.reload(client)
+    logging.getLogger('gdbclient').setLevel(logging.CRITICAL + 1)
+    return client
+
+
+def make_client(client, bitsizes, big):
+    from ppci.arch.arch_info import Endianness
+
+    class _Info:
+        endianness = Endianness.BIG if big else Endianness.LITTLE
+
+    class _Arch:
+        info = _Info()
+        gdb_registers = [_FakeReg(b) for b in bitsizes]
+    c = client.GdbDebugDriver(_Arch(), FakeTransport())
+    c.status = client.DebugState.STOPPED
+    c.sent = []
+    return c
+
+
+def _guard(f):
+    try:
+        return OkV(f())
+    except Exception:   # noqa: BLE001  (every exception of this code is an undocumented one)
+        return Internal
+
+
+def impl_set_registers_cmd(client, bitsizes, vals):
+    c = make_client(client, bitsizes, False)
+    regs = c.arch.gdb_registers
+
+    def cmd(text):
+        c.sent.append(text)
+        return 'OK'
+    c._send_command = cmd
+
+    def go():
+        c.set_registers(dict(zip(regs, vals)))
+        assert len(c.sent) == 1
+        return s2l(c.sent[0])
+    return _guard(go)
+
+
+def impl_get_general_registers(client, big, bitsizes, reply):
+    c = make_client(client, bitsizes, big)
+    regs = c.arch.gdb_registers
+    c._send_command = lambda text: l2s(reply)
+
+    def go():
+        res = c.get_registers(regs)
+        return [res[r] for r in regs]
+    return _guard(go)
+
+
+def impl_pack_register(client, bitsize, v):
+    return _guard(lambda: list(client.GdbDebugDriver._pack_register(_FakeReg(bitsize), v)))
+
+
+def impl_unpack_register(client, big, bitsize, data):
+    c = make_client(client, [bitsize], big)
+    return _guard(lambda: c._unpack_register(c.arch.gdb_registers[0], bytes(data)))
+
+
+def impl_write_mem_data(client, data):
+    c = make_client(client, [], False)
+
+    def cmd(text):
+        c.sent.append(text)
+        return 'OK'
+    c._send_command = cmd
+
+    def go():
+        c.write_mem(4096, bytes(data))
+        head, _, tail = c.sent[0].partition(':')
+        assert head == 'M 1000,%x' % len(data)
+        return s2l(tail)
+    return _guard(go)
+
+
+def impl_read_mem_reply(client, reply):
+    c = make_client(client, [], False)
+    c._send_command = lambda text: l2s(reply)
+    return _guard(lambda: list(c.read_mem(4096, 4)))
+
+
+def regs_cases(rng, client, scale):
+    """correspondence cases for Model.RspRegs; returns (cases, recs, nontrivial)"""
+    cases, recs, nontriv = [], [], 0
+    sizes = [8, 16, 32, 64]
+    odd = [0, 7, 24, 12, 40, 128, 9]
+
+    def val(bs):
+        top = 1 << max(bs // 8 * 8, 1)
+        return rng.choice([0, 1, top - 1, top // 2, rng.randrange(top), rng.randrange(top)])
+
+    def add(term, out, kind, inp):
+        cases.append((term, out))
+        recs.append((kind, inp, out))
+    hexchars = [ord(ch) for ch in '0123456789abcdefABCDEF']
+    for _ in range(60 * scale):
+        n = rng.randrange(0, 7)
+        regs = [rng.choice(sizes) if rng.random() < 0.9 else rng.choice(odd) for _ in range(n)]
+        vals = [val(b) for b in regs]
+        r = rng.random()
+        if r < 0.1 and vals:
+            vals[rng.randrange(n)] = rng.choice([-1, 1 << 64, 1 << regs[0]])
+        elif r < 0.15 and vals:
+            vals = vals[:-1]
+        out = impl_set_registers_cmd(client, regs, vals)
+        add('set_registers_cmd %s %s' % (to_term(regs), to_term(vals)), out, 'set_registers', [regs, vals])
+        nontriv += 1 if isinstance(out, OkV) and n else 0
+        # the reply of 'g': the block just sent, or a mutation of it, or random hex
+        big = rng.random() < 0.4
+        if isinstance(out, OkV) and rng.random() < 0.7:
+            reply = out.v[2:]
+            m = rng.random()
+            if m < 0.2 and reply:
+                reply = reply[:rng.randrange(len(reply))]
+            elif m < 0.3:
+                reply = reply + [rng.choice(hexchars) for _ in range(rng.randrange(1, 5))]
+            elif m < 0.4 and reply:
+                reply = list(reply)
+                reply[rng.randrange(len(reply))] = rng.choice([71, 103, 32, 200, 300, 47, 58, 64, 96])
+            elif m < 0.6:
+                reply = [ord(chr(x).upper()) for x in reply]
+        else:
+            reply = [rng.choice(hexchars) for _ in range(2 * rng.randrange(0, 20) + (rng.random() < 0.1))]
+        g = impl_get_general_registers(client, big, regs, reply)
+        add('get_general_registers %s %s %s' % ('true' if big else 'false', to_term(regs), to_term(reply)), g,
+            'get_general_registers', [big, regs, reply])
+        nontriv += 1 if isinstance(g, OkV) and any(g.v) else 0
+    for bs in sizes + odd:
+        for _ in range(3 * scale):
+            v = rng.choice([val(bs), val(bs), -1, 1 << (bs // 8 * 8), (1 << (bs // 8 * 8)) - 1])
+            add('pack_register (%d) (%d)' % (bs, v), impl_pack_register(client, bs, v), 'pack_register', [bs, v])
+            big = rng.random() < 0.5
+            ln = bs // 8 if rng.random() < 0.8 else rng.randrange(0, 10)
+            data = [rng.randrange(256) for _ in range(ln)]
+            u = impl_unpack_register(client, big, bs, data)
+            add('unpack_register %s (%d) %s' % ('true' if big else 'false', bs, to_term(data)), u,
+                'unpack_register', [big, bs, data])
+            nontriv += 1 if isinstance(u, OkV) and u.v else 0
+    for _ in range(40 * scale):
+        data = [rng.choice([0, 9, 10, 15, 16, 127, 128, 255, rng.randrange(256)]) for _ in range(rng.randrange(0, 12))]
+        w = impl_write_mem_data(client, data)
+        add('write_mem_data %s' % to_term(data), w.v if isinstance(w, OkV) else w, 'write_mem', data)
+        reply = w.v if isinstance(w, OkV) and rng.random() < 0.5 else \
+            [rng.choice(hexchars + [103, 71, 47, 58, 64, 96, 32, 200]) for _ in range(rng.randrange(0, 9))]
+        add('read_mem_reply %s' % to_term(reply), impl_read_mem_reply(client, reply), 'read_mem', reply)
+        nontriv += 1 if data else 0
+    return cases, recs, nontriv
+
+
 def regen(ctx):
     """tie H: nothing to regenerate; record the hash of the modelled source"""
     p = os.path.join(os.environ.get('VERIF_REPO', '/repo'), SRC)
@@ -827,7 +992,7 @@ def run(ctx):
     regen(ctx)
     rsp = load_impl()
     rng = ctx.rng
-    ok, _ = ctx.build(['Proofs/C35_frame.vo', 'Proofs/C35_lts.vo', 'Proofs/C35_live.vo'])
+    ok, _ = ctx.build(['Proofs/C35_frame.vo', 'Proofs/C35_lts.vo', 'Proofs/C35_live.vo', 'Proofs/C35_regs.vo'])
     if ok:
         ctx.check_props('Props/C35.v')
     nontriv = 0
@@ -918,6 +1083,29 @@ def run(ctx):
                     len(idxs), k, recs[i][1], recs[i][2].v if isinstance(recs[i][2], OkV) else recs[i][2]))
             ctx.failed_stages.append(('correspondence', 'Model.Rsp (configuration ' + CF + ') disagrees with %s on %d cases: %s'
                                       % (SRC, len(bad), ', '.join('%s x%d' % (k, len(v)) for k, v in kinds.items()))))
+    # register / memory payload code of client.py against Model.RspRegs
+    if ctx.build(['Model/RspRegs.vo', 'Lib/Val.vo'])[0]:
+        pc = os.path.join(os.environ.get('VERIF_REPO', '/repo'), SRC_CLIENT)
+        ctx.cov['stages']['source_client'] = {'file': SRC_CLIENT, 'sha256': hashlib.sha256(open(pc, 'rb').read()).hexdigest()}
+        try:
+            client = load_client()
+            rcases, rrecs, rnon = regs_cases(rng, client, 1 if ctx.quick() else 4)
+        except Exception as ex:   # noqa: BLE001
+            rcases, rrecs, rnon = [], [], 0
+            ctx.failed_stages.append(('correspondence-regs', 'cannot drive GdbClient of %s: %r' % (SRC_CLIENT, ex)))
+        if rcases:
+            rdist = {}
+            for r in rrecs:
+                rdist[r[0]] = rdist.get(r[0], 0) + 1
+            ctx.cov['stages']['correspondence_regs_distribution'] = rdist
+            ctx.cov['distinct_nontrivial'] += rnon
+            rbad = ctx.run_cases('rspregs', ['Model.RspRegs'], rcases, shard=200)
+            if rbad:
+                i = rbad[0]
+                ctx.log('Model.RspRegs/GdbDebugDriver disagree on %d case(s), first: %s %r impl=%r' % (
+                    len(rbad), rrecs[i][0], rrecs[i][1], rrecs[i][2].v if isinstance(rrecs[i][2], OkV) else rrecs[i][2]))
+                ctx.failed_stages.append(('correspondence-regs', 'Model.RspRegs disagrees with %s on %d cases (first: %s %r)'
+                                          % (SRC_CLIENT, len(rbad), rrecs[i][0], rrecs[i][1])))
     # search oracle: cheap on every run, deep when something failed or tier is thorough
     search_impl(ctx, rsp, (not ctx.quick()) or bool(ctx.failed_stages), flags)
     ctx.cov['exhaustive'] = False
@@ -943,5 +1131,6 @@ MANIFEST = {
             'harness; atomicity of LTS steps; timeouts as nondeterministic labels. The sender is ASCII-only by design. Not '
             'modelled: OS scheduling, sockets, queue.Queue internals, RLE in received packets, unsequenced acks (protocol '
             'limitation). No axioms.',
+    'text_wave5': '3 more theorems over Model.RspRegs (hand model of the register/memory payload code of ppci/binutils/dbg/gdb/client.py, run against the real GdbDebugDriver methods on ~270 inputs per run): write_mem hex text is decoded back by read_mem for every byte string; the G block sent by set_registers is read back by _get_general_registers (little-endian target) for every register list and all values that fit; set_registers is defined exactly there. binascii/struct are modelled, not verified; _pack_register ignores the target byte order.',
     'technique': 'Coq proof over hand model (state machine + LTS, one switch per repair) + differential trace replay',
 }
